@@ -189,7 +189,10 @@ func runC11(c *core.Ctx) error {
 		}
 	}
 	checkGuardedRecursion(c, r4, prog, recExempt)
+	checkCycleGuardUnconditional(c, r4, prog)
+	checkFileReadFresh(c, prog)
 	checkNilContradictions(c, prog, table)
+	checkNilBeliefsAcrossCalls(c, prog, table)
 	return nil
 }
 
@@ -893,4 +896,209 @@ func tableReason(t *panicob.Table, key string) string {
 		}
 	}
 	return ""
+}
+
+
+// checkCycleGuardUnconditional: ensureNoInfiniteRecursion is the cycle check that
+// allOf / oneOf / anyOf generation relies on before it merges or walks the
+// members. (a) It must not report success without having walked: every
+// return of a constant nil in the function itself (not its walker closure) sits
+// under `parent == nil`. (b) Each of its callers invokes it in its entry block,
+// i.e. before any other work and on every path.
+func checkCycleGuardUnconditional(c *core.Ctx, r *core.Rule, prog *core.Prog) {
+	fn := prog.Func(pkgGen, "ensureNoInfiniteRecursion")
+	if fn == nil {
+		r.Undecided("anchor:ensureNoInfiniteRecursion", "-", "gen.ensureNoInfiniteRecursion not found")
+		return
+	}
+	walked := false
+	for _, call := range core.Calls(fn) {
+		if g, _ := resolveLocalClosure(call.Common().Value); g != nil && g.Parent() == fn {
+			walked = true
+		}
+	}
+	if !walked {
+		r.Fail("cycle-guard:no-walk", c.Pos(fn.Pos()), "ensureNoInfiniteRecursion no longer calls its walker closure")
+	}
+	for _, b := range fn.Blocks {
+		ret, ok := b.Instrs[len(b.Instrs)-1].(*ssa.Return)
+		if !ok || len(ret.Results) != 1 || !core.IsNilConst(ret.Results[0]) {
+			continue
+		}
+		// allowed only under `parent == nil`
+		okNil := false
+		for _, d := range fn.Blocks {
+			iff, isIf := d.Instrs[len(d.Instrs)-1].(*ssa.If)
+			if !isIf {
+				continue
+			}
+			bo, isBo := iff.Cond.(*ssa.BinOp)
+			if !isBo || bo.Op != token.EQL || bo.X != ssa.Value(fn.Params[0]) || !core.IsNilConst(bo.Y) {
+				continue
+			}
+			if t := d.Succs[0]; len(t.Preds) == 1 && (t == b || t.Dominates(b)) {
+				okNil = true
+			}
+		}
+		if okNil {
+			r.Pass("ensureNoInfiniteRecursion: early success only for a nil schema")
+			continue
+		}
+		r.Fail("cycle-guard:early-success", c.Pos(ret.Pos()), "ensureNoInfiniteRecursion reports success here without walking the schema: members reached only through this schema (inline allOf/oneOf/anyOf) are merged without a cycle check and a self-referential allOf overflows the stack")
+	}
+	n := 0
+	for _, caller := range core.PkgFuncs(prog.SSA, prog.ByPath[pkgGen]) {
+		for _, call := range core.Calls(caller) {
+			if call.Common().StaticCallee() != fn {
+				continue
+			}
+			n++
+			_, ownParam := call.Common().Args[0].(*ssa.Parameter)
+			if call.Block() == caller.Blocks[0] && ownParam {
+				r.Pass(fmt.Sprintf("%s checks its schema for cycles first thing", caller.Name()))
+			} else {
+				r.Fail("cycle-guard:caller:"+fnKeyFull(caller), c.Pos(call.Pos()), fmt.Sprintf("%s does not call ensureNoInfiniteRecursion on its schema parameter in its entry block: some path reaches the member walk without the cycle check", caller.Name()))
+			}
+		}
+	}
+	if n < 3 {
+		r.Fail("cycle-guard:callers", c.Pos(fn.Pos()), fmt.Sprintf("ensureNoInfiniteRecursion has %d callers; allOf, oneOf and anyOf generation are expected to call it", n))
+	}
+}
+
+// resolveLocalClosure: the closure a call through a local variable invokes (var do func…; do = func…; do()).
+func resolveLocalClosure(v ssa.Value) (*ssa.Function, []ssa.Value) {
+	switch x := v.(type) {
+	case *ssa.MakeClosure:
+		g, _ := x.Fn.(*ssa.Function)
+		return g, x.Bindings
+	case *ssa.Function:
+		return x, nil
+	case *ssa.UnOp:
+		if x.Op != token.MUL {
+			return nil, nil
+		}
+		if al, ok := x.X.(*ssa.Alloc); ok {
+			for _, ref := range *al.Referrers() {
+				if st, ok := ref.(*ssa.Store); ok && st.Addr == ssa.Value(al) {
+					if g, b := resolveLocalClosure(st.Val); g != nil {
+						return g, b
+					}
+				}
+			}
+		}
+	}
+	return nil, nil
+}
+
+
+// checkFileReadFresh (R11.7): the position info of a parsed schema is built by
+// Parser.extendInfo from the file that is current in the resolve context. The
+// context's file changes when resolve pushes the referenced document
+// (ResolveCtx.AddKey), so the file handed to extendInfo must be read from the
+// context at that point: either the argument is the p.file(ctx) call itself, or
+// a variable whose only assignment is such a call made after the push.
+func checkFileReadFresh(c *core.Ctx, prog *core.Prog) {
+	r := c.NewRule("R11.7", "S1", "the file recorded for a parsed schema is read from the resolve context after the referenced document was pushed", 2)
+	sp := prog.ByPath[pkgJS]
+	if sp == nil {
+		r.Undecided("load:jsonschema", "-", "package jsonschema not loaded")
+		return
+	}
+	isFileRead := func(v ssa.Value) *ssa.Call {
+		call, ok := v.(*ssa.Call)
+		if !ok {
+			return nil
+		}
+		switch core.CalleeName(call.Common()) {
+		case "(*ogen/jsonschema.Parser).file", "(*ogen/jsonpointer.ResolveCtx).File":
+			return call
+		}
+		return nil
+	}
+	// the AddKey call of a function, if any
+	pushOf := func(f *ssa.Function) ssa.CallInstruction {
+		for _, call := range core.Calls(f) {
+			if core.CalleeName(call.Common()) == "(*ogen/jsonpointer.ResolveCtx).AddKey" {
+				return call
+			}
+		}
+		return nil
+	}
+	after := func(x ssa.Instruction, push ssa.CallInstruction) bool {
+		if x.Block() == push.Block() {
+			for _, in := range x.Block().Instrs {
+				if in == push.(ssa.Instruction) {
+					return true
+				}
+				if in == x {
+					return false
+				}
+			}
+		}
+		return push.Block().Dominates(x.Block())
+	}
+	for _, top := range core.PkgFuncs(prog.SSA, sp) {
+		for _, fn := range core.AllFuncs(top) {
+			for _, call := range core.Calls(fn) {
+				if core.CalleeName(call.Common()) != "(*ogen/jsonschema.Parser).extendInfo" {
+					continue
+				}
+				args := call.Common().Args
+				fileArg := args[len(args)-1]
+				key := "extendInfo-file:" + fnKeyFull(fn)
+				if isFileRead(fileArg) != nil {
+					r.Pass(fmt.Sprintf("%s: file read from the context at the call", key))
+					continue
+				}
+				// a captured / local variable assigned once from a read made after the push
+				ok := false
+				why := "the file argument is not a read of the resolve context"
+				if ld, isLd := fileArg.(*ssa.UnOp); isLd && ld.Op == token.MUL {
+					var cell ssa.Value = ld.X
+					owner := fn
+					if fv, isFv := cell.(*ssa.FreeVar); isFv && fn.Parent() != nil {
+						// binding in the parent
+						for _, b := range fn.Parent().Blocks {
+							for _, in := range b.Instrs {
+								if mc, isMc := in.(*ssa.MakeClosure); isMc && mc.Fn == fn {
+									for i, f := range fn.FreeVars {
+										if f == fv {
+											cell = mc.Bindings[i]
+										}
+									}
+								}
+							}
+						}
+						owner = fn.Parent()
+					}
+					if al, isAl := cell.(*ssa.Alloc); isAl {
+						n := 0
+						for _, ref := range *al.Referrers() {
+							st, isSt := ref.(*ssa.Store)
+							if !isSt || st.Addr != ssa.Value(al) {
+								continue
+							}
+							n++
+							rd := isFileRead(st.Val)
+							push := pushOf(owner)
+							switch {
+							case rd == nil:
+								why = "the variable holding the file is assigned something other than a read of the resolve context"
+							case push != nil && !after(rd, push):
+								why = fmt.Sprintf("the file is read from the resolve context (%s) before the referenced document is pushed (%s): a schema reached through a cross-file $ref is recorded with the referrer's file", c.Pos(rd.Pos()), c.Pos(push.Pos()))
+							default:
+								ok = n == 1
+							}
+						}
+					}
+				}
+				if ok {
+					r.Pass(fmt.Sprintf("%s: file variable assigned once, after the push", key))
+				} else {
+					r.Fail(key, c.Pos(call.Pos()), why)
+				}
+			}
+		}
+	}
 }
